@@ -2677,6 +2677,181 @@ theorem route_iso (h : Heap) (pre : List (Nat × PreTarget)) (root : Val) (s' : 
   obtain ⟨r1, r2, r3, r4⟩ := copy_iso h.size s0h s0m root (2 * h.size + 1) s' v' wf0 hunb hlt hann0 hroot hc
   exact ⟨⟨s0h, s0m⟩, hp, hold, r1, r2, r3, r4⟩
 
+/-! ### the memo the route's own pre-seeding produces, and positive sharing for `copyRoute` -/
+namespace Aux
+
+/-- one step of `preseed`: whatever the target kind, the rest is pre-seeded from a state whose memo got exactly one new entry for `i`
+(with the listed target when it is `.existing`) -/
+theorem preseed_step {s s0 : St} {i : Nat} {t : PreTarget} {r : List (Nat × PreTarget)}
+    (hr : preseed s ((i, t) :: r) = .ok s0) :
+    ∃ h' j, preseed ⟨h', (i, j) :: s.m⟩ r = .ok s0 ∧ (∀ t', t = .existing t' → j = t') := by
+  cases t with
+  | existing j =>
+    simp only [preseed] at hr
+    by_cases hj : j < s.h.size
+    · simp only [hj, if_true] at hr
+      exact ⟨s.h, j, hr, fun t' e => by cases e; rfl⟩
+    · simp [hj] at hr
+  | sameAs k =>
+    simp only [preseed] at hr
+    cases hl : s.m.lookup k with
+    | none => simp [hl] at hr
+    | some j =>
+      simp only [hl] at hr
+      exact ⟨s.h, j, hr, fun t' e => by cases e⟩
+  | fresh =>
+    simp only [preseed] at hr
+    cases ho : s.h[i]? with
+    | none => simp [ho] at hr
+    | some o =>
+      simp only [ho] at hr
+      cases hlab : o.get "_label" with
+      | none => simp [hlab] at hr
+      | some lab =>
+        simp only [hlab, newTaxon] at hr
+        exact ⟨_, _, hr, fun t' e => by cases e⟩
+
+/-- the memo after `preseed`: old entries stay, every `.existing` entry of the list is there with its listed target, and every new
+entry has a key of the list -/
+theorem preseed_memo : ∀ (r : List (Nat × PreTarget)) (s s0 : St), preseed s r = .ok s0 →
+    (∀ p ∈ s.m, p ∈ s0.m) ∧ (∀ i t, (i, PreTarget.existing t) ∈ r → (i, t) ∈ s0.m) ∧
+    (∀ p ∈ s0.m, p ∈ s.m ∨ p.1 ∈ r.map Prod.fst) := by
+  intro r
+  induction r with
+  | nil =>
+    intro s s0 hr
+    simp [preseed] at hr; subst hr
+    exact ⟨fun _ h => h, fun _ _ h => (by cases h), fun _ h => Or.inl h⟩
+  | cons e r ih =>
+    intro s s0 hr
+    obtain ⟨i, t⟩ := e
+    obtain ⟨h', j, hr', hj⟩ := preseed_step hr
+    obtain ⟨a, b, c⟩ := ih _ s0 hr'
+    refine ⟨fun p hp => a p (List.mem_cons_of_mem _ hp), ?_, ?_⟩
+    · intro i' t' hm
+      rcases List.mem_cons.mp hm with e | e
+      · cases e
+        have := hj t' rfl
+        subst this
+        exact a _ (by simp)
+      · exact b i' t' e
+    · intro p hp
+      rcases c p hp with h1 | h1
+      · rcases List.mem_cons.mp h1 with e | e
+        · subst e; exact Or.inr (by simp)
+        · exact Or.inl e
+      · exact Or.inr (by simp only [List.map_cons, List.mem_cons]; exact Or.inr h1)
+
+/-- with pairwise distinct source keys the pre-seeded memo is a function -/
+theorem preseed_functional : ∀ (r : List (Nat × PreTarget)) (s s0 : St), preseed s r = .ok s0 →
+    (r.map Prod.fst).Nodup → (∀ p ∈ s.m, p.1 ∉ r.map Prod.fst) →
+    (∀ p ∈ s.m, ∀ q ∈ s.m, p.1 = q.1 → p.2 = q.2) → ∀ p ∈ s0.m, ∀ q ∈ s0.m, p.1 = q.1 → p.2 = q.2 := by
+  intro r
+  induction r with
+  | nil =>
+    intro s s0 hr _ _ hf
+    simp [preseed] at hr; subst hr; exact hf
+  | cons e r ih =>
+    intro s s0 hr hnd hdis hf
+    obtain ⟨i, t⟩ := e
+    obtain ⟨h', j, hr', _⟩ := preseed_step hr
+    simp only [List.map_cons, List.nodup_cons] at hnd
+    apply ih _ s0 hr' hnd.2
+    · intro p hp
+      rcases List.mem_cons.mp hp with e | e
+      · subst e; exact hnd.1
+      · intro hin; exact hdis p e (by simp only [List.map_cons, List.mem_cons]; exact Or.inr hin)
+    · intro p hp q hq e
+      have hni : ∀ x ∈ s.m, x.1 ≠ i := by
+        intro x hx e'; exact hdis x hx (by simp [e'])
+      rcases List.mem_cons.mp hp with ep | ep <;> rcases List.mem_cons.mp hq with eq | eq
+      · subst ep; subst eq; rfl
+      · subst ep; exact absurd e.symm (hni q eq)
+      · subst eq; exact absurd e (hni p ep)
+      · exact hf p ep q eq e
+end Aux
+
+/-- **route_memo_functional**: when the route lists every source object at most once (as the harness does: the namespace and each of
+its taxa once), the memo `preseed` hands to `cpVal` is a function, contains every `.existing` entry with its listed target, and seeds
+nothing but listed keys. -/
+theorem route_memo_functional (h : Heap) (pre : List (Nat × PreTarget)) (s0 : St) (hp : preseed ⟨h, []⟩ pre = .ok s0)
+    (hnd : (pre.map Prod.fst).Nodup) :
+    (∀ p ∈ s0.m, ∀ q ∈ s0.m, p.1 = q.1 → p.2 = q.2) ∧ (∀ i t, (i, PreTarget.existing t) ∈ pre → (i, t) ∈ s0.m) ∧
+    (∀ p ∈ s0.m, p.1 ∈ pre.map Prod.fst) := by
+  obtain ⟨_, b, c⟩ := preseed_memo pre ⟨h, []⟩ s0 hp
+  refine ⟨preseed_functional pre ⟨h, []⟩ s0 hp hnd (by intro p hp; cases hp) (by intro p hp; cases hp), b, ?_⟩
+  intro p hp
+  rcases c p hp with h1 | h1
+  · cases h1
+  · exact h1
+
+/-- **route_shares_existing** (`copy_shares_preseeded` for the function the driver runs — the POSITIVE direction of "shares exactly
+the namespace and its taxa" at route level): after `copyRoute` on a well-formed exported heap whose route lists every source object
+at most once, the completed copy `o'` of an exported object `i` that the route did not list carries, position by position, for every
+attribute whose source value is a listed object `t` with `.existing` target `t'` (not an annotation set), the reference `t'` ITSELF:
+with the namespace-scoped seeding (`t' = t`) the copy's `_taxon_namespace`, `taxon`, … are the very objects of the source; with the
+other-namespace seeding they are the listed objects of that namespace. -/
+theorem route_shares_existing (h : Heap) (pre : List (Nat × PreTarget)) (root : Val) (s' : St) (v' : Val)
+    (wf : WellFormed h.size h) (hT : ∀ i t, (i, PreTarget.existing t) ∈ pre → isBound h t = false)
+    (hann : ∀ (i : Nat) (o : Obj) (a : Nat), i < h.size → h[i]? = some o → annotationsRef o = some a →
+      ∃ ao, h[a]? = some ao ∧ ao.kind = .annset)
+    (hroot : SrcVal h.size root) (hr : copyRoute h pre root = .ok (s', v'))
+    (hnd : (pre.map Prod.fst).Nodup)
+    (i j : Nat) (hm : (i, j) ∈ s'.m) (hnl : i ∉ pre.map Prod.fst) (hi : i < h.size)
+    (o : Obj) (ho : h[i]? = some o) (hk : o.kind ≠ .annset) :
+    ∃ o' core tail, s'.h[j]? = some o' ∧ o'.fields = core ++ tail ∧
+      List.Forall₂ (fun f f' => f'.1 = f.1 ∧ ∀ t t', f.2 = .ref t → (t, PreTarget.existing t') ∈ pre → t < h.size →
+        (∀ ot, h[t]? = some ot → ot.kind ≠ .annset) → (f.1 ≠ "_value" ∨ isB o' = false) → f'.2 = .ref t') (planFields o) core := by
+  obtain ⟨s0, hp, hc, hsz, hold, hlt, htgt, hnb⟩ := route_spec h pre root s' v' hr
+  obtain ⟨hfun, hex, hkeys⟩ := route_memo_functional h pre s0 hp hnd
+  have wf0 : WellFormed h.size s0.h := wf_congr wf hold hsz
+  have hunb : ∀ t ∈ targets s0.m, isBound s0.h t = false := by
+    intro t ht
+    by_cases hl : t < h.size
+    · rcases htgt t ht with ⟨i, hi⟩ | hge
+      · rw [isBound_congr (hold t hl)]; exact hT i t hi
+      · omega
+    · exact hnb t (by omega)
+  have hann0 : ∀ (i : Nat) (o : Obj) (a : Nat), i < h.size → s0.h[i]? = some o → annotationsRef o = some a →
+      ∃ ao, s0.h[a]? = some ao ∧ ao.kind = .annset := by
+    intro i o a hi hg ha
+    rw [hold i hi] at hg
+    obtain ⟨ao, h1, h2⟩ := hann i o a hi hg ha
+    have hac : a < h.size := wf.closed i o hi hg _ (annotationsRef_mem ha) a rfl
+    exact ⟨ao, by rw [hold a hac]; exact h1, h2⟩
+  obtain ⟨s0h, s0m⟩ := s0
+  obtain ⟨o', core, tail, h1, h2, h3⟩ := copy_shares_preseeded h.size s0h s0m root (2 * h.size + 1) s' v' wf0 hunb hlt hann0 hroot hc
+    hfun i j hm (fun hin => hnl (hkeys _ hin)) o (by rw [hold i hi]; exact ho) hk
+  refine ⟨o', core, tail, h1, h2, h3.imp ?_⟩
+  intro f f' r
+  refine ⟨r.1, ?_⟩
+  intro t t' ef hpe htl hna hval
+  exact r.2 t t' ef (hex t t' hpe) (by intro ot hot; rw [hold t htl] at hot; exact hna ot hot) hval
+
+/-- **bound_annotation_follows_owner** (forward- and backward-bound owners alike): in the FINAL state the copy `a2` of an
+attribute-bound annotation `a1` is bound to THE copy `jo` of the source's owner `ow` — any owner: the holder itself, an object the
+traversal had visited before the annotation, or one it reaches only later (then the `_value` tuple's own deep copy creates and
+memoises the owner's copy on the spot, and the later visit finds it in the memo).  `bound_annotation_follows` gives a memo-image of
+the owner; the functional memo (`copy_memo_functional`) makes it the one every other reference to the owner's copy uses. -/
+theorem bound_annotation_follows_owner (c : Nat) (h : Heap) (pre : Memo) (v : Val) (fuel : Nat) (s' : St) (v' : Val)
+    (wf : WellFormed c h) (hnw : ∀ x ∈ targets pre, isBound h x = false) (hpre : ∀ p ∈ pre, p.2 < h.size)
+    (hann : ∀ (i : Nat) (o : Obj) (a : Nat), i < c → h[i]? = some o → annotationsRef o = some a →
+      ∃ ao, h[a]? = some ao ∧ ao.kind = .annset)
+    (hv : SrcVal c v) (hr : cpVal fuel ⟨h, pre⟩ v = .ok (s', v'))
+    (hpf : ∀ p ∈ pre, ∀ q ∈ pre, p.1 = q.1 → p.2 = q.2)
+    (a1 a2 : Nat) (hm : (a1, a2) ∈ s'.m) (hnp : (a1, a2) ∉ pre)
+    (o : Obj) (tv ow : Nat) (nm : String) (ho : h[a1]? = some o) (hk : o.kind ≠ .annset)
+    (hval : o.get "_value" = some (.ref tv)) (huniq : ∀ w, ("_value", w) ∈ o.fields → w = .ref tv)
+    (hbv : boundValue h a1 = some (.ref ow, .atom nm))
+    (ot : Obj) (hot : h[tv]? = some ot) (hotk : ot.kind ≠ .annset) (hotf : ot.fields = [("#0", .ref ow), ("#1", .atom nm)])
+    (htvpre : ∀ q ∈ pre, q.1 ≠ tv)
+    (jo : Nat) (hjo : (ow, jo) ∈ s'.m) (hown : ∀ oo, h[ow]? = some oo → oo.kind ≠ .annset) :
+    boundValue s'.h a2 = some (.ref jo, .atom nm) := by
+  obtain ⟨j, hb, hj⟩ := bound_annotation_follows c h pre v fuel s' v' wf hnw hpre hann hv hr a1 a2 hm hnp o tv ow nm ho hk hval huniq
+    hbv ot hot hotk hotf htvpre
+  have := copy_memo_functional c h pre v fuel s' v' wf hnw hpre hann hv hr hpf ow j jo hj hjo hown
+  rw [← this]; exact hb
+
 /-! ### histories of later changes -/
 
 /-- a later change of the heap: overwrite an existing object, or allocate a new one -/
@@ -3298,6 +3473,27 @@ example (fuel : Nat) (s' : St) (v' : Val) (hr : cpVal fuel ⟨exNs, [(1, 1)]⟩ 
     simp only at hx hk
     exact ⟨tail, by rw [h2, hx, hk]; rfl⟩
 
+/-- a FORWARD-bound owner: node 0 has children A (1) and B (6); A's annotation (5) is bound to `length` of B, which the copy
+traversal reaches only after A (with its annotations) is complete -/
+def exFwd : Heap := #[
+  { kind := .annotable, cls := "Node", fields := [("a", .ref 1), ("b", .ref 6)] },
+  { kind := .annotable, cls := "Node", fields := [("_annotations", .ref 2)] },
+  { kind := .annset, cls := "AnnotationSet", fields := [("_item_list", .ref 3), ("_item_set", .ref 4), ("target", .ref 1)] },
+  { kind := .plain, cls := "list", fields := [("#0", .ref 5)] },
+  { kind := .plain, cls := "set", fields := [("e0", .ref 5)] },
+  { kind := .annotable, cls := "Annotation", fields := [("_value", .ref 7), ("is_attribute", .atom "True")] },
+  { kind := .annotable, cls := "Node", fields := [("length", .atom "float:1.0")] },
+  { kind := .tuple, cls := "tuple", fields := [("#0", .ref 6), ("#1", .atom "length")] }]
+/-- the run: the annotation's copy (10) is bound to B's copy (12) — created while the annotation was being copied — and the root's
+copy (8) refers to that same object 12 as its `b`, not to the source's B (6) -/
+example : ∃ s' v', copyRoute exFwd [] (.ref 0) = .ok (s', v') ∧ boundValue s'.h 10 = some (.ref 12, .atom "length") ∧
+    (5, 10) ∈ s'.m ∧ (6, 12) ∈ s'.m ∧
+    s'.h[8]? = some { kind := .annotable, cls := "Node", fields := [("a", .ref 9), ("b", .ref 12)] } := by
+  simp [copyRoute, preseed, cpVal, cpFields, cpItems, exFwd, planFields, annotationsRef, setFields, setField, setFieldL, List.lookup,
+    itemFields, Obj.get, retarget, isBound, boundValue, attachAnnotations, pushAnnSet, dedupVals, indexed]
+/-- the namespace-scoped route of `exNs` lists each key once: `route_memo_functional` / `route_shares_existing` apply -/
+example : ([(1, PreTarget.existing 1)].map Prod.fst).Nodup := by simp
+
 /-! ### the shallow routes (model and correspondence only; examples of what they share) -/
 
 /-- a tree list holding one tree (object 2) in its `_trees` list (object 1); object 3 is the instance `TreeList.__copy__` has just
@@ -3323,6 +3519,144 @@ example : ∃ s', shallowNs exNsp 0 = .ok (s', .ref 3) ∧
     s'.h[3]? = some { kind := .namespace, cls := "TaxonNamespace", fields := [("_taxa", .ref 4), ("_label", .atom "None")] } ∧
     s'.h[4]? = some { kind := .plain, cls := "list", fields := [("#0", .ref 2)] } := by
   simp [shallowNs, exNsp, Obj.get, List.lookup, cpFields, cpVal, planFields, annotationsRef, setFields, seedSelf, itemVals]
+
+/-- every old object as its own (shareable) image: the sharing a shallow copy is allowed -/
+def preAll (h : Heap) : Memo := (List.range h.size).map (fun x => (x, x))
+
+namespace Aux
+theorem mem_targets_preAll {h : Heap} {x : Nat} (hx : x < h.size) : x ∈ targets (preAll h) := by
+  simp only [targets, preAll, List.map_map]
+  exact List.mem_map.mpr ⟨x, List.mem_range.mpr hx, rfl⟩
+
+/-- the state `shallowMembers` starts the annotation copy from satisfies the copy invariant relative to the source heap, with every
+old object declared shareable -/
+theorem good_shallow_init (h : Heap) (hcl : Closed h) (src : Nat) (J lo : Obj)
+    (hJ : ∀ f ∈ J.fields, ∀ k, f.2 = Val.ref k → k < h.size ∨ k = h.size + 1)
+    (hlo : ∀ f ∈ lo.fields, ∀ k, f.2 = Val.ref k → k < h.size) :
+    Good h.size h (preAll h) ⟨(h.push J).push lo, [(src, h.size)]⟩ where
+  base := by simp; omega
+  old := by
+    intro x hx _
+    simp [Array.getElem?_push]
+    have h1 : x ≠ h.size + 1 := by omega
+    have h2 : x ≠ h.size := by omega
+    simp [h1, h2]
+  fresh := by intro p hp; simp at hp; subst hp; exact Or.inr (Nat.le_refl _)
+  newrefs := by
+    intro j o hj hget f hf k hk
+    have hlt : j < ((h.push J).push lo).size := lt_of_get hget
+    simp at hlt
+    by_cases e1 : j = h.size
+    · subst e1
+      have : ((h.push J).push lo)[h.size]? = some J := get_push2 h J lo
+      rw [this] at hget; cases hget
+      rcases hJ f hf k hk with h1 | h1
+      · exact Or.inl (mem_targets_preAll h1)
+      · exact Or.inr (by omega)
+    · have e2 : j = h.size + 1 := by omega
+      subst e2
+      have : ((h.push J).push lo)[h.size + 1]? = some lo := by simp [Array.getElem_push]
+      rw [this] at hget; cases hget
+      exact Or.inl (mem_targets_preAll (hlo f hf k hk))
+  lt := by intro _ p hp; simp at hp; subst hp; simp
+  inj := by intro _ p q hp hq _ _; simp at hp hq; rw [hp, hq]
+end Aux
+
+/-- **shallow_members_frame_partial** (`TreeList.__copy__` / `CharacterMatrix.__copy__`, the function the driver runs): on a closed
+exported heap a successful shallow copy returns the NEW object `h.size`; it writes to no old
+object that is not an attribute-bound annotation — the source, its member container, the members, the namespace and the constructed
+instance are untouched, i.e. the members are shared and never modified; every memo target is an old object mapped to itself or a new
+object; and every object the route allocates (the copy, its new member container, the copied annotations) refers only to old
+objects or to new ones.
+PARTIAL — what is missing: that an old attribute-bound annotation is not re-targeted either (the invariant, which declares every old
+object shareable, cannot exclude an identity entry for it in the memo), and the content of the new member container in the final
+state (`lo` with the source's member references: true at allocation, see the `exTl` example; covered per case by the comparison with
+the real copy). -/
+theorem shallow_members_frame_partial (h : Heap) (hcl : Closed h) (src b : Nat) (mem : String) (s' : St) (v' : Val)
+    (hr : shallowMembers h src b mem = .ok (s', v')) :
+    v' = .ref h.size ∧
+    (∀ x, x < h.size → isBound h x = false → s'.h[x]? = h[x]?) ∧
+    (∀ p ∈ s'.m, p.1 = p.2 ∨ h.size ≤ p.2) ∧
+    (∀ j o, h.size ≤ j → s'.h[j]? = some o → ∀ f ∈ o.fields, ∀ k, f.2 = .ref k → k < h.size ∨ h.size ≤ k) := by
+  unfold shallowMembers at hr
+  cases hs : h[src]? with
+  | none => simp [hs] at hr
+  | some o =>
+    cases hb : h[b]? with
+    | none => simp [hs, hb] at hr
+    | some ob =>
+      simp only [hs, hb] at hr
+      cases hm : o.get mem with
+      | none => simp [hm] at hr
+      | some mv =>
+        cases mv with
+        | atom z => simp [hm] at hr
+        | ref l =>
+          simp only [hm] at hr
+          cases hl : h[l]? with
+          | none => simp [hl] at hr
+          | some lo =>
+            simp only [hl] at hr
+            have g0 := good_shallow_init h hcl src { ob with fields := setFieldL mem (.ref (h.size + 1)) ob.fields } lo
+              (by
+                intro f hf k hk
+                rcases mem_setFieldL' hf with e | e
+                · subst e; simp at hk; exact Or.inr hk.symm
+                · exact Or.inl (hcl b ob hb f e k hk))
+              (fun f hf k hk => hcl l lo hl f hf k hk)
+            have fin : ∀ sf : St, Good h.size h (preAll h) sf →
+                (∀ x, x < h.size → isBound h x = false → sf.h[x]? = h[x]?) ∧
+                (∀ p ∈ sf.m, p.1 = p.2 ∨ h.size ≤ p.2) ∧
+                (∀ j o, h.size ≤ j → sf.h[j]? = some o → ∀ f ∈ o.fields, ∀ k, f.2 = .ref k → k < h.size ∨ h.size ≤ k) := by
+              intro sf g
+              refine ⟨?_, ?_, ?_⟩
+              · intro x hx hnb
+                exact g.old x hx (by intro hw; rw [hw.2] at hnb; cases hnb)
+              · intro p hp
+                rcases g.fresh p hp with h1 | h1
+                · simp only [preAll, List.mem_map] at h1
+                  obtain ⟨x, _, e⟩ := h1
+                  subst e; exact Or.inl rfl
+                · exact Or.inr h1
+              · intro j oj hj hget f hf k hk
+                by_cases hk' : k < h.size
+                · exact Or.inl hk'
+                · exact Or.inr (by omega)
+            cases ha : annotationsRef o with
+            | none =>
+              simp only [ha] at hr
+              simp at hr
+              obtain ⟨e1, e2⟩ := hr
+              subst e1; subst e2
+              exact ⟨rfl, fin _ g0⟩
+            | some a =>
+              simp only [ha] at hr
+              split at hr
+              · rename_i ao items hao hit
+                cases hc : cpItems (2 * h.size + 1) ⟨(h.push { ob with fields := setFieldL mem (.ref (h.size + 1)) ob.fields }).push lo,
+                    [(src, h.size)]⟩ src h.size (items.map Prod.snd) with
+                | error e => simp [hc] at hr
+                | ok r =>
+                  obtain ⟨s4, items'⟩ := r
+                  simp only [hc] at hr
+                  simp at hr
+                  obtain ⟨e1, e2⟩ := hr
+                  subst e1; subst e2
+                  obtain ⟨g4, hfr⟩ := (pitems_of_pval (pval_all h.size h (preAll h) (2 * h.size + 1))) _ _ src h.size s4 items' g0
+                    (Nat.le_refl _) hc
+                  have g5 := good_attach g4 a ao.cls h.size (Nat.le_refl _) items' hfr
+                  exact ⟨rfl, fin _ g5⟩
+              · simp at hr
+
+/-- the hypothesis of `shallow_members_frame_partial` holds of `exTl` (and the run exists: see the `exTl` example above) -/
+example : Closed exTl := by
+  intro i o hget f hf k hk
+  have hi : i < 5 := lt_of_get hget
+  have c5 : i = 0 ∨ i = 1 ∨ i = 2 ∨ i = 3 ∨ i = 4 := by omega
+  have : k < 5 := by
+    rcases c5 with rfl | rfl | rfl | rfl | rfl <;> simp [exTl] at hget <;> subst hget <;>
+      exact srcVal_of_all 5 _ (by decide) f hf k hk
+  simpa [exTl] using this
 
 /-! ### tie A: the kernels regenerated from the source on every run equal the model's -/
 
